@@ -78,7 +78,7 @@ class Query:
                 self.asserts.append(f"(or (= {memo[a[1].id]} 0.0) (= (* {qn} {memo[a[1].id]}) {memo[a[0].id]}))")
                 memo[m.id] = qn
                 continue
-            else: s = f"({o} {memo[a[0].id]} {memo[a[1].id]})"
+            else: s = f"({o} " + " ".join(memo[x.id] for x in a) + ")"
             if o not in ("c", "v", "b", "nonfinite"):
                 nm = f"t{m.id}"
                 sort = "Bool" if m.is_bool else "Real"
